@@ -83,7 +83,7 @@ def dump (st : St) : List String :=
     let ls := (List.range (st.nVid + 1)).filterMap fun vid => (st.locs k vid).map fun l => s!"{vid}@{fNats l "+"}"
     let ov := (List.range (st.nVid + 1)).filter fun vid => !(st.ov k vid).isEmpty
     if (st.wr k).isEmpty && ls.isEmpty && ov.isEmpty then [] else
-    [s!"L{k.coll}.{k.rp}.{k.ttl}.{k.disk}={fNats (st.wr k) ","}|{joinOr ls ";"}|{fNats ov ","}"]
+    [s!"L{k.coll}.{k.rp}.{k.ttl}.{k.disk}={fNats (sortBy (fun a b => decide (a ≤ b)) (st.wr k)) ","}|{joinOr ls ";"}|{fNats ov ","}"]
   let ec := (List.range (st.nVid + 1)).flatMap fun vid =>
     let ss := (List.range 14).filterMap fun sh =>
       if (st.ecLoc vid sh).isEmpty then none else some s!"{sh}@{fNats (st.ecLoc vid sh) "+"}"
